@@ -117,8 +117,20 @@ class Unit:
         if _dimkey(self.dims) != _dimkey(o.dims):
             return False
         if is_sym(self.scale) or is_sym(o.scale):
-            return core.z3.eq(core.lift(self.scale), core.lift(o.scale))
+            a, b = core.lift(self.scale), core.lift(o.scale)
+            if core.z3.eq(a, b):
+                return True
+            a, b = core._coerce(a, b)
+            return core.Ctx.decide(a == b)   # semantic equality of the scales (forks if undetermined)
         return self.scale == o.scale
+
+    def same_as(self, o):
+        """z3 formula: same dimension and same scale"""
+        if not isinstance(o, Unit) or _dimkey(self.dims) != _dimkey(o.dims):
+            return core.z3.BoolVal(False)
+        a, b = core._coerce(core.lift(self.scale if is_sym(self.scale) else Q(self.scale)),
+                            core.lift(o.scale if is_sym(o.scale) else Q(o.scale)))
+        return a == b
 
     def __ne__(self, o):
         return not self.__eq__(o)
